@@ -179,7 +179,7 @@ def rule_builder_pairs(col, facts):
             col.check(R, "setter:%s" % fname, idx in w, "%s(..) assigns fields %s, not %s" % (fname, [fields[x] for x in w if x < len(fields)], fname), f.loc())
     col.floor(R, "getters", ng, len(fields))
     if "format" in facts.config:
-        col.floor(R, "setters", ns, 31)
+        col.floor(R, "setters", ns, 31 if ("power-of-two" in facts.config or "radix" in facts.config) else 29)
 
 
 def field_of_self(e, fields):
